@@ -54,7 +54,7 @@ Calibration
 * cut points of the explicit compositions never split equal index labels (dask's divisions could not describe
   such a partitioning); empty partitions are placed inside index gaps so that the divisions stay truthful
   (checked once with the C41 monitor for every grid partitioning).
-* the cumulative family is additionally run on a seed-independent grid (2 fixed frames x 13 partitionings x 6
+* the cumulative family is additionally run on a seed-independent grid (2 fixed frames x 17 partitionings x 6
   targets x 4 functions x skipna) so that its many mechanism labels do not depend on lucky seeds.
 """
 from __future__ import annotations
@@ -119,7 +119,8 @@ EX_OPS = (
     {"op": "fill", "fn": "bfill", "limit": None},
 )
 GRID_PARTS = (([4, 4], []), ([1, 7], []), ([3, 1, 4], []), ([2, 2, 4], []), ([1, 1, 6], []), ([3, 5], []),
-              ([7, 1], []), ([1] * 8, []), ([8], []), ([4, 4], [1]), ([4, 4], [0]), ([2, 3, 3], [1, 3]), ([4, 4], [2]))
+              ([7, 1], []), ([1] * 8, []), ([8], []), ([4, 4], [1]), ([4, 4], [0]), ([2, 3, 3], [1, 3]), ([4, 4], [2]),
+              ([8], [0]), ([8], [1]), ([8], [0, 0]), ([7, 1], [0]))
 INDEX_KINDS = ("gaps", "gaps", "dups", "datetime", "datetime", "datetime-dups", "float")
 AGGS = ("sum", "mean", "min", "max", "count", "std", "var", "median", "apply-raw", "apply-series")
 
@@ -645,15 +646,16 @@ def run_case(case, ctx):
         # an EMPTY pandas result keeps int64 where any non-empty one becomes float64 (shift/diff/rolling
         # introduce no NaN into zero rows); dask's meta cannot know the length -> dtype not demanded there
         m = frames.compare(got, expected, ordered=True, rtol=1e-9, check_dtype=len(expected) > 0)
+        if m and _kind(m) == "dtype":
+            # a dtype difference must not hide a value difference; and when the values differ as well the
+            # dtype is (also) a consequence of them (NaN in an int column): report the values, keep "dtype"
+            # for pure dtype differences
+            m2 = frames.compare(got, expected, ordered=True, rtol=1e-9, check_dtype=False)
+            if m2:
+                m = m2
         if m:
             ctx.violation(_value_label(op, feats, px, _kind(m)), m[1],
                           got=_show(got), expected=_show(expected), **detail)
-            if _kind(m) == "dtype":
-                # a dtype difference must not hide a value difference
-                m2 = frames.compare(got, expected, ordered=True, rtol=1e-9, check_dtype=False)
-                if m2:
-                    ctx.violation(_value_label(op, feats, px, _kind(m2)), m2[1],
-                                  got=_show(got), expected=_show(expected), **detail)
         ctx.sample = {"op": op, "partition_sizes": lens[:12], "features": feats}
 
 
